@@ -21,7 +21,7 @@ def hug_points(run, cells):
         r = spec.res_of(c)
         if not ring or r is None or r < 0:
             continue
-        if any(abs(la) > 83.0 for lo, la in ring):
+        if any(abs(la) > 89.5 for lo, la in ring):
             continue
         u = lambda lo, la: (math.cos(math.radians(la)) * math.cos(math.radians(lo)), math.cos(math.radians(la)) * math.sin(math.radians(lo)), math.sin(math.radians(la)))
         vs = [u(lo, la) for lo, la in ring]
@@ -65,7 +65,7 @@ def focus_points(run, limit):
             a = rng.uniform(0, 2 * math.pi)
             la = lat + rad * s * math.sin(a)
             lo = lon + rad * s * math.cos(a) / max(0.05, math.cos(math.radians(lat)))
-            if abs(la) <= 84.0:
+            if abs(la) <= 89.9999:
                 pts.append(("focus", lo, la, r))
     return pts
 
@@ -97,8 +97,11 @@ def run(run):
             lat = max(-89.9, min(89.9, lat + step * rng.choice([1, 0.3])))
             lon = lon + step * rng.choice([0.0, 1.0]) / max(0.05, math.cos(math.radians(lat)))
             kind = "seam"
-        if abs(lat) > 84.0:
-            continue     # the lookup itself is unreliable in the polar caps (known finding F11); neighbours are gathered by lookup
+        if rng.random() < 0.08:
+            # next to a pole (the lookup is reliable there since fix 24ee3fd): 1e-8 .. 1 degree away
+            lat = rng.choice([1, -1]) * (90.0 - 10 ** rng.uniform(-8, 0)); lon = rng.uniform(-180, 180); kind = "polar"
+        if abs(lat) > 89.99999999:
+            continue
         pts.append((kind, lon, lat, r))
     state = {}
 
@@ -208,7 +211,7 @@ def run(run):
             evaluate(focus + fh, "focus")
         run.extra["focused_points"] = len(focus) + len(fh)
     creq, cimpl, cmodel, cands = main['creq'], main['cimpl'], main['cmodel'], main['cands']
-    run.rule = ("points (60% uniform, 40% stepped 0.05..1.5 cell sizes away from edges / vertices of base cells and quintants, i.e. quintant borders, dodecahedron edges and vertices) x random resolutions 0..29, |lat| <= 84; "
+    run.rule = ("points (60% uniform, 40% stepped 0.05..1.5 cell sizes away from edges / vertices of base cells and quintants, i.e. quintant borders, dodecahedron edges and vertices) x random resolutions 0..29, 8% of the points 1e-8..1 degree from a pole; "
                 "for each point the candidate set = cells returned for the point and for 24 probe points on three rings (0.6 / 1.2 / 2 cell sizes); "
                 "the planar containment test (impl) and an independent winding test on the reported boundaries must give exactly one strict owner; "
                 "plus edge-hugging points (0.25% / 0.6% / 2% of a cell size inside and outside the reported edges of cells next to seams and of random cells); "
